@@ -39,9 +39,9 @@ T = {
  "C16": ("exploration", "negative-request monitor: every invalidating change and pair must yield error and no bytes; controls must succeed",
          "Valid base requests x ~95 invalidating changes (singles - also on a used envelope object - and pairs) in both formats, local/remote signers, six key specs and both schemes are executed; the oracle is err != nil, no bytes, no panic, and the converse for valid controls.", "The catalogue of invalidating changes is read off the statement.", "DESIGN 4/C16"),
  "C17": ("exploration", "Go race detector + barrier-forced schedules + goroutine-leak and panic-routing monitors",
-         "In a -race child: every permutation of releasing the concurrent per-certificate exchanges (k<=4), 1-32 concurrent callers on shared validator/client/fetcher/cache, panic injection at each exchange / pair / all, cancellation at each exchange; results must equal the sequential reference, no race report may name the library, no library goroutine, open exchange or unclosed response body may remain, no shared CRL bundle object may be written to, injected panics must resurface on the caller.", "Completion order is forced from outside (no hook); evidence lists the orders actually observed.", "DESIGN 4/C17"),
+         "In a -race child: every permutation of releasing the concurrent per-certificate exchanges (k<=4), 1-32 concurrent callers on shared validator/client/fetcher/cache, panic injection at each exchange / pair / all (also while a body is read, and as series of 12 recovered panics on one validator followed by a healthy call), cancellation at each exchange (on arrival, on delivery, while a body is read); results must equal the sequential reference, no race report may name the library, no library goroutine, open exchange or unclosed response body may remain, no shared CRL bundle object may be written to, injected panics must resurface on the caller.", "Completion order is forced from outside (no hook); evidence lists the orders actually observed.", "DESIGN 4/C17"),
  "C18": ("fault_enumeration", "history enumeration against an executable reference model of server, cache and armed faults",
-         "All histories to depth 3 (quick) / 4 (thorough, 5 for four shapes) over {fetch, publish, cache entry states, cache/server faults} x DiscardCacheError x 16 freshest-CRL shapes are run against the real HTTPFetcher; each Fetch result, the cache writes and the request sequence must match the model (Appendix A.4). Cached bundles are also watched crossing their next-update instant under continuous fetching.", "Model trusted; scripted expiry is 2001 vs 2096, the boundary is observed live (sound rule: began after the instant and still served from the cache).", "DESIGN 4/C18"),
+         "All histories to depth 3 (quick) / 4 (thorough, 5 for four shapes) over {fetch, publish, publish a newer base while the delta locations lag, cache entry states, cache/server faults} x DiscardCacheError x 16 freshest-CRL shapes are run against the real HTTPFetcher; each Fetch result, the cache writes and the request sequence must match the model (Appendix A.4). Cached bundles are also watched crossing their next-update instant under continuous fetching.", "Model trusted; scripted expiry is 2001 vs 2096, the boundary is observed live (sound rule: began after the instant and still served from the cache).", "DESIGN 4/C18"),
  "C19": ("exploration", "exhaustive enumeration over a look-alike certificate pool against a reference",
          "All ordered chains (1-4) x all ordered trust lists (0-4) over a pool with look-alike certificates are passed to VerifyAuthenticity and compared with the reference; AuthenticSigningTime is checked on the scheme x time grid.", "Reference trusted; pointer identity beyond DER equality + membership is not asserted.", "DESIGN 4/C19"),
  "C20": ("exploration", "history enumeration against a nondeterministic reference state machine",
